@@ -218,6 +218,7 @@ def build_native():
 def c03_control_slices(out, cov):
     import mir
     path, dump_s = mir.dump_mir('feos-core')
+    cov['_mir_path'] = path
     fs = mir.parse_functions(path, ['density_iteration', 'newton'])
     samples = []
     states = transitions = 0
@@ -285,20 +286,23 @@ def check_C03(tier, only):
     try:
         if not only or 'slices' in only:
             c03_control_slices(out, cov)
+        if not only or 'slices' in only or 'roots' in only:
+            check_root_selection(out, cov)
     except Exception as e:
         import traceback
         out.inconclusive.append('E-M failed: ' + traceback.format_exc()[-1200:])
     pats = json.load(open(os.path.join(VERIF, 'kani', 'c03_patterns.json')))
     hs = [p['name'] for p in pats if tier == 'thorough' or p['tier'] == 'quick']
-    if not only or any(o != 'slices' for o in only):
-        ekc = ek_part(out, 'C03', tier, [('ext', h) for h in hs], [o for o in only if o != 'slices'],
+    if not only or any(o not in ('slices', 'roots') for o in only):
+        ekc = ek_part(out, 'C03', tier, [('ext', h) for h in hs], [o for o in only if o not in ('slices', 'roots')],
                       ['C03-a/b: State::new with NoResidual(1|2): one harness per concrete subset of the 8 optional inputs, all payloads symbolic f64 (every bit pattern): over-/under-determined sets and component-count '
                        'mismatches give an error; Ok implies T (and V, N_i when given) are echoed bitwise, are finite and not sign-negative, total_moles = sum, density = N/V; InvalidState only if a given value is invalid; '
                        'the density iteration is selected exactly where the documented hierarchy says (probed with InitialDensity(-1))'], timeout=3000)
         cov['E-K'] = ekc
         cov['states'] = cov.get('states', 0) + ekc.get('states', 0); cov['transitions'] = cov.get('transitions', 0) + ekc.get('transitions', 0)
+    cov.pop('_mir_path', None)
     cov.setdefault('states', 1); cov.setdefault('transitions', 1); cov.setdefault('samples', [{}]); cov.setdefault('traces_validated_against_impl', 0)
-    cov['functions_encoded'] = ['feos_core::density_iteration::density_iteration (MIR control slice)', 'feos_core::state::newton (MIR control slice)', 'State::new / _new / new_nvt / validate (Kani, public API)']
+    cov['functions_encoded'] = ['feos_core::state::State::new_npt (MIR, symbolic interpretation with abstract calls)', 'feos_core::density_iteration::density_iteration (MIR control slice)', 'feos_core::state::newton (MIR control slice)', 'State::new / _new / new_nvt / validate (Kani, public API)']
     cov['bounds'] = 'unbounded in the iteration count (CHC invariants by z3 Spacer); abstraction: only integer/boolean locals, Range<i32>, Option<i32> tracked; calls and float comparisons nondeterministic'
     out.coverage = cov
     out.assumptions = ['std contracts of Range<i32>::next / into_iter', 'integer overflow asserts of the MIR (overflow-checks=on) end the path (panic), they do not return',
@@ -649,3 +653,160 @@ def check_C11(tier, only):
     cov['functions_encoded'] = ['feos_core::state::cache::Cache::* (compiled, in-crate harness)', 'State getters in residual_properties.rs / properties.rs through the public API', 'State::clone']
     out.coverage = cov
     return out.finish()
+
+
+# ------------------------------------------------------------------------------------------------
+# C03-c: root selection and phase hints of State::new_npt (E-M: loop-free MIR, calls abstracted)
+# ------------------------------------------------------------------------------------------------
+def c03_root_selection(out, cov):
+    """new_npt is loop-free once density_iteration / max_density / residual_gibbs_energy are calls returning
+    arbitrary results: the MIR is executed symbolically (symbolic Result discriminants, symbolic order of the
+    Gibbs energies and of p vs rho_max R T) and z3 decides, for every DensityInitialization variant, that the
+    returned value is the documented one."""
+    import mir, mirfloat
+    from mirfloat import Interp, Enum, SymEnum, smt
+    path = cov.get('_mir_path')
+    if path is None:
+        path, _ = mir.dump_mir('feos-core')   # regenerated from /repo's working tree on every run
+        cov['_mir_path'] = path
+    fs = mir.parse_functions(path, [r'state::<impl at [^>]*>::new_npt'])
+    fl = fs[r'state::<impl at [^>]*>::new_npt']
+    if len(fl) != 1:
+        out.inconclusive.append('MIR: expected one body of State::new_npt, found %d' % len(fl)); return
+    f = fl[0]
+    src = open(os.path.join(REPO, 'feos-core/src/state/mod.rs')).read()
+    eb = src[src.index('pub enum DensityInitialization'):]
+    variants = [m.group(1) for m in re.finditer(r'^\s*(\w+)(?:\([^)]*\))?,\s*$', eb[eb.index('{') + 1:eb.index('\n}')], re.M)]
+    results = []
+    for vi, vname in enumerate(variants):
+        calls = []      # density_iteration calls: (tag var, rho0 term, state var)
+
+        def glue(callee, args, dst_type, it):
+            if callee.startswith('density_iteration'):
+                k = len(calls) + 1
+                se = SymEnum(('ivar', 'r%d' % k), {0: ('Ok', [('ivar', 'state%d' % k)]), 1: ('Err', [('var', 'err%d' % k)])}, label='di%d' % k)
+                calls.append((k, args[4]))
+                return se
+            if callee.endswith('::max_density'):
+                return SymEnum(('ivar', 'm'), {0: ('Ok', [('var', 'rhomax')]), 1: ('Err', [('var', 'errm')])}, label='maxdens')
+            if 'as Try>::branch' in callee:
+                x = args[0]
+                return SymEnum(x.tag, {0: ('Continue', x.variants[0][1]), 1: ('Break', [('residual', x.label)])}, label='cf_' + x.label)
+            if 'FromResidual' in callee:
+                return Enum(1, 'Err', [('var', 'from_residual')])
+            if 'as Deref>::deref' in callee: return args[0]
+            m = re.search(r' as (Div|Mul)<.*>>::(div|mul)$', callee)
+            if m: return ('div' if m.group(1) == 'Div' else 'mul', args[0], args[1])
+            m = re.search(r' as PartialOrd>::(lt|gt|le|ge)$', callee)
+            if m: return (m.group(1), args[0], args[1])
+            if callee.endswith('::residual_gibbs_energy'):
+                return ('var', 'g_' + str(args[0][1]) if isinstance(args[0], tuple) else 'g_x')
+            return None
+
+        dens = Enum(vi, vname, [('var', 'rho_init')])
+        it = Interp(f, {'_1': ('var', 'eos'), '_2': ('var', 'T'), '_3': ('var', 'p'), '_4': ('var', 'moles'), '_5': dens}, glue=glue)
+        it.opaque_ok = True
+        # named constant RGAS
+        mirfloat.NAMED_SYMBOLS = {'RGAS'}
+        res = it.run()
+        results.append((vname, res, calls))
+    return results
+
+
+def check_root_selection(out, cov):
+    import mirfloat
+    from mirfloat import Enum, SymEnum, smt
+    try:
+        results = c03_root_selection(out, cov)
+    except Exception:
+        import traceback
+        out.inconclusive.append('C03-c (new_npt root selection) failed: ' + traceback.format_exc()[-1200:])
+        return
+    if not results:
+        return
+    queries = []
+    for vname, res, calls in results:
+        decls, axioms = set(), set()
+
+        def code(v):
+            """(ok: Bool term, state: Int term) of a returned value"""
+            if isinstance(v, tuple) and v and v[0] == 'ite':
+                c = smt(v[1], decls, axioms)
+                (o1, s1), (o2, s2) = code(v[2]), code(v[3])
+                return '(ite %s %s %s)' % (c, o1, o2), '(ite %s %s %s)' % (c, s1, s2)
+            if isinstance(v, SymEnum):
+                t = smt(v.tag, decls, axioms)
+                st = smt(v.variants[0][1][0], decls, axioms)
+                return '(= %s 0)' % t, st
+            if isinstance(v, Enum):
+                if v.name == 'Ok': return 'true', smt(v.payload[0], decls, axioms)
+                return 'false', '0'
+            if v == ('var', 'UNREACHABLE'):
+                return 'false', '0'   # `otherwise` arm of a discriminant switch: excluded by 0 <= tag <= 1
+            raise RuntimeError('unexpected return value %r' % (v,))
+        ok, st = code(res)
+        rho0 = {k: smt(t, decls, axioms) for k, t in calls}
+        ideal = '(/ (/ p T) RGAS)'
+        # the documented behaviour, written independently of the code
+        n = len(calls)
+        if vname == 'InitialDensity':
+            spec = '(and (= NCALLS 1) (= %s rho_init) (= OK (= r1 0)) (=> OK (= ST state1)))' % rho0.get(1, '0.0')
+        elif vname == 'Vapor':
+            spec = '(and (= NCALLS 1) (= %s %s) (= OK (= r1 0)) (=> OK (= ST state1)))' % (rho0.get(1, '0.0'), ideal)
+        elif vname == 'Liquid':
+            spec = '(and (=> (= m 1) (not OK)) (=> (= m 0) (and (= %s rhomax) (= OK (= r1 0)) (=> OK (= ST state1)))))' % rho0.get(1, '0.0')
+        else:  # None: stable phase
+            if n != 2:
+                spec = 'false'
+            else:
+                both = '(< p (* (* rhomax T) RGAS))'
+                pick = ('(ite (and (= r1 0) (= r2 0)) (ite (> g_state1 g_state2) 2 1) (ite (= r1 0) 1 (ite (= r2 0) 2 0)))')
+                spec = ('(and (=> (= m 1) (not OK)) (=> (= m 0) (and (= %s rhomax) (= %s %s) '
+                        '(ite %s (and (= OK (not (= %s 0))) (=> OK (= ST (ite (= %s 1) state1 state2)))) (and (= OK (= r1 0)) (=> OK (= ST state1)))))))'
+                        % (rho0[1], rho0[2], ideal, both, pick, pick))
+        script = ['(set-logic ALL)']
+        names = set(n_ for k_, n_ in decls)
+        for k_, n_ in sorted(decls):
+            script.append('(declare-const %s %s)' % (n_, 'Int' if k_ == 'int' else 'Real'))
+        for extra, sort in (('m', 'Int'), ('r1', 'Int'), ('r2', 'Int'), ('state1', 'Int'), ('state2', 'Int'), ('p', 'Real'), ('T', 'Real'), ('RGAS', 'Real'), ('rhomax', 'Real'),
+                            ('rho_init', 'Real'), ('g_state1', 'Real'), ('g_state2', 'Real')):
+            if extra not in names: script.append('(declare-const %s %s)' % (extra, sort))
+        script += ['(assert (and (>= m 0) (<= m 1) (>= r1 0) (<= r1 1) (>= r2 0) (<= r2 1)))', '(assert (and (= state1 1) (= state2 2)))',
+                   '(assert (and (> p 0.0) (> T 0.0) (> RGAS 0.0) (> rhomax 0.0)))']
+        script.append('(define-fun OK () Bool %s)' % ok)
+        script.append('(define-fun ST () Int %s)' % st)
+        script.append('(define-fun NCALLS () Int %d)' % n)
+        script.append('(assert (not %s))' % spec)
+        ans, tac, secs = mirfloat.solve('\n'.join(script), timeout=30)
+        queries.append({'variant': vname, 'density_iteration_calls': n, 'answer': ans, 'solver_s': round(secs, 2), 'returned_ok': ok[:200], 'returned_state': st[:200]})
+        cov['transitions'] = cov.get('transitions', 0) + 1
+        if ans == 'sat':
+            # abstract scenario: confirm natively through the public API (PR propane, states with two density roots)
+            build_native()
+            pn = sh([NATIVE_BIN, 'root_selection', '369.8', '41.9e5', '0.15'], timeout=600)
+            try:
+                pts = json.loads(pn.stdout.strip().splitlines()[-1])['points']
+            except Exception:
+                pts = []
+            bad = None
+            for q in pts:
+                two = abs(q['rho_liquid'] - q['rho_vapor']) > 1e-3 * q['rho_liquid']
+                if not two: continue
+                close = lambda x, y: abs(x - y) <= 1e-6 * abs(y)
+                if vname == 'None':
+                    want = q['rho_vapor'] if q['g_liquid'] > q['g_vapor'] else q['rho_liquid']
+                    if not close(q['rho_none'], want): bad = q
+                elif vname == 'Vapor' and not q['rho_vapor'] < 0.5 * q['rho_liquid']: bad = q
+                elif vname == 'Liquid' and not q['rho_liquid'] > 2.0 * q['rho_vapor']: bad = q
+                elif vname == 'InitialDensity' and not (close(q['rho_init_near_liquid'], q['rho_liquid']) and close(q['rho_init_near_vapor'], q['rho_vapor'])): bad = q
+                if bad: break
+            cov['traces_validated_against_impl'] = cov.get('traces_validated_against_impl', 0) + 1
+            if bad is None:
+                out.inconclusive.append('new_npt root selection (%s): z3 finds a deviating scenario but the native two-root states of PR propane do not reproduce it' % vname)
+                continue
+            out.violation({'engine': 'E-M', 'site': 'State::new_npt:' + vname},
+                          'C03: State::new_npt with DensityInitialization::%s does not return the documented root (z3 finds an assignment of the density-iteration outcomes / Gibbs-energy order for which the returned state differs from the documented choice)' % vname,
+                          {'variant': vname, 'script_tail': script[-4:], 'native_cmd': '%s root_selection 369.8 41.9e5 0.15' % NATIVE_BIN, 'native': bad})
+        elif ans != 'unsat':
+            out.inconclusive.append('new_npt root selection (%s): z3 answered %s' % (vname, ans))
+    cov['root_selection_queries'] = queries
